@@ -30,7 +30,13 @@ class P:
                 s.eat()
                 if s.peek() in ("?", "+"): raise SyntaxError("lazy/possessive")
                 a = ({"?": "opt", "*": "star", "+": "plus"}[c], a)
-            elif c == "{": raise SyntaxError("counted")
+            elif c == "{":
+                j = s.t.index("}", s.i); body = s.t[s.i + 1:j]; s.i = j + 1
+                if s.peek() in ("?", "+"): raise SyntaxError("lazy/possessive")
+                lo, _, hi = body.partition(",")
+                lo = int(lo); hi = lo if "," not in body else (int(hi) if hi else None)
+                if hi is None: a = ("seq", [a] * lo + [("star", a)])
+                else: a = ("seq", [a] * lo + [("opt", a)] * (hi - lo))
             items.append(a)
         return ("seq", items)
     def atom(s):
